@@ -653,6 +653,12 @@ pub struct PCase {
     pub cfg: BackendCfg,
     /// segments of writes, each followed by a backup (true = full, false = incremental on the previous)
     pub segments: Vec<(Vec<BOp>, bool)>,
+    /// per segment: an incremental's parent is the backup this many steps up the parent chain of
+    /// the latest backup (0 = the latest itself; >0 creates sibling incrementals, a "differential"
+    /// schedule).  With parents always on the latest backup's ancestor chain, "the newest backup
+    /// taken at or before T" is the unambiguous point-in-time answer.
+    #[serde(default)]
+    pub up: Vec<u8>,
 }
 
 pub struct Pitr;
@@ -669,7 +675,7 @@ impl Prop for Pitr {
         12
     }
     fn rule(&self) -> String {
-        "2-4 backups spaced by 1.1 s of real time on one parent chain (new full backups start a new chain); point-in-time targets equal to, between and beyond the backup timestamps; non-trivial = a target that selects an incremental; distinct = hash of decoded case".into()
+        "2-4 backups spaced by 1.1 s of real time; an incremental's parent is the latest backup or one of its ancestors (sibling incrementals = differential schedule; new full backups start a new chain); point-in-time targets equal to, between and beyond the backup timestamps; non-trivial = a target that selects an incremental; distinct = hash of decoded case".into()
     }
     fn decode(&self, raw: &Raw, _tier: Tier) -> PCase {
         let mut t = Tape::new(&raw.head);
@@ -677,18 +683,22 @@ impl Prop for Pitr {
         cfg.rotate_bytes = t.pick(&[300u64, 1 << 20]);
         cfg.snapshot_interval = t.pick(&[0usize, 3]);
         let mut segments: Vec<(Vec<BOp>, bool)> = vec![];
+        let mut up = vec![];
         let mut cur = vec![];
         for c in &raw.chunks {
             cur.push(decode_bop(&c[1..], &cfg, 5, &[10, 3, 2, 3, 1, 1]));
             if cur.len() >= 3 && segments.len() < 4 {
-                let full = segments.is_empty() || c[0] < 70;
+                let full = segments.is_empty() || c[0] < 50;
+                // 0 (chain) for low bytes, 1-2 steps up for the upper 40 %
+                up.push(if c[0] >= 205 { 2 } else if c[0] >= 150 { 1 } else { 0 });
                 segments.push((std::mem::take(&mut cur), full));
             }
         }
         if segments.is_empty() {
             segments.push((cur, true));
+            up.push(0);
         }
-        PCase { cfg, segments }
+        PCase { cfg, segments, up }
     }
     fn run(&self, case: &PCase, env: &CaseEnv) -> Result<CaseReport, Failure> {
         let cfg = &case.cfg;
@@ -700,7 +710,7 @@ impl Prop for Pitr {
         let mut ever = BTreeSet::new();
         let mut taken: Vec<(BackupMetadata, Dump)> = vec![];
         let mut rep = CaseReport::default();
-        for (ops, full) in &case.segments {
+        for (si, (ops, full)) in case.segments.iter().enumerate() {
             for op in ops {
                 match op {
                     BOp::Snapshot => b.create_snapshot().map_err(|e| Failure::new("setup_failed", format!("{:#}", e)))?,
@@ -718,7 +728,15 @@ impl Prop for Pitr {
             let m = if *full || taken.is_empty() {
                 bm.create_full_backup("pitr full".into())
             } else {
-                bm.create_incremental_backup(taken.last().unwrap().0.id, "pitr incr".into())
+                // parent: `up` steps up the parent chain of the latest backup
+                let mut parent = taken.last().unwrap().0.clone();
+                for _ in 0..case.up.get(si).copied().unwrap_or(0) {
+                    let Some(pid) = parent.parent_id else { break };
+                    let Some((pm, _)) = taken.iter().find(|(m, _)| m.id == pid) else { break };
+                    parent = pm.clone();
+                    rep.label("sibling_incremental");
+                }
+                bm.create_incremental_backup(parent.id, "pitr incr".into())
             };
             match m {
                 Ok(m) => taken.push((m, model.docs.clone())),
@@ -781,7 +799,7 @@ pub fn main(ctx: &Ctx) {
     run_tamper_exhaustive(ctx);
     run_pbt(ctx, &Retention, ctx.tier.pick(3_000, 60_000));
     run_pbt(ctx, &ClearP, ctx.tier.pick(16, 64));
-    run_pbt(ctx, &Pitr, ctx.tier.pick(16, 96));
+    run_pbt(ctx, &Pitr, ctx.tier.pick(48, 256));
 }
 
 pub fn replay(ctx: &Ctx, v: &serde_json::Value) -> Option<i32> {
